@@ -1,5 +1,6 @@
 """Prompt for an independent sub-agent that produces HARMLESS changes (the
-property still holds) to measure false alarms.  usage: benprompt.py PID"""
+property still holds) to measure false alarms.  usage: benprompt.py PID [start-index]
+(start-index 4 = second round: worktree /tmp/ben4-<pid>, files b4..b6)"""
 import json
 import sys
 
@@ -8,7 +9,9 @@ for l in open('/verif/properties.jsonl'):
     p = json.loads(l)
     if p['id'] == pid:
         break
-wt = '/tmp/ben-' + pid.lower()
+start = int(sys.argv[2]) if len(sys.argv) > 2 else 1
+wt = ('/tmp/ben-' if start == 1 else '/tmp/ben%d-' % start) + pid.lower()
+idx = '%d..%d' % (start, start + 2)
 print(f'''You are helping to measure how many FALSE ALARMS a verification tool raises on harmless code changes. You work ONLY inside the git worktree {wt} (a scratch checkout of the repository knz/shakespeare: a Go CLI that parses a theatre-themed DSL, compiles it into timed scenes, runs shell commands as actors and audits their output with temporal-predicate state machines). Do not read or touch anything under /verif or /repo; do not use the network (there is none). Per shell call: `export GOFLAGS=-mod=mod GOPROXY=off GOSUMDB=off GOTOOLCHAIN=local`. The two git-ignored generated files pkg/cmd needs (pkg/cmd/version.go, pkg/cmd/report_html.go) already exist in your worktree (untracked; leave them). go.mod says go 1.12 (no generics, no 0o literals). Tests: `go test -vet=off -count=1 ./pkg/crdb/...` is the project's reference suite (all of it passes except 3 known always-failing tests: TestDefaultCallResolver, TestFatalStacktraceStderr, TestRedirectStderr); `go test -vet=off -count=1 ./pkg/cmd/` also exists: note which of its tests fail BEFORE your change (several do, on the unchanged tree) — your change must not make any additional test of either suite fail. The build tag `verif` guards instrumentation files named verif_*.go: leave them alone, but your change must still compile with `go build -tags verif ./pkg/...` (do not rename or change the signature of anything those files use unless you must; if you must, say so).
 
 The property (id {p['id']}): "{p['title']}"
@@ -22,6 +25,6 @@ Your task: produce THREE different, realistic source changes in or right next to
  3. a well-meant optimisation or robustness improvement in the same code that is actually correct (early exit that is really equivalent, caching that is really transparent, an extra nil/empty guard that cannot change any result).
 Each change must compile, keep every existing test result unchanged, and you must be able to argue in 3-6 sentences why the property holds exactly as before for every input/schedule/history it quantifies over. Be careful: a "harmless" change that actually alters behaviour the property constrains is useless here. Where the property text mentions specific output (a message, a file, a value), that output must stay byte-identical.
 
-Deliver, under {wt}/BEN/, for i in 1..3: `b<i>.diff` (output of `git diff` for that change alone, relative to the unchanged tree, not including the generated files), and `b<i>.json` with fields: property, kind (refactor | unconstrained-behaviour | optimisation), summary (what is changed), why_property_still_holds, existing_tests (exact commands you ran and that no additional test fails). After producing each diff, restore the tree (`git checkout -- .`) and verify the diff applies cleanly with `git apply --check`. At the end the worktree must contain no source modification apart from the BEN/ directory. Reply with a short summary of the three changes.
+Deliver, under {wt}/BEN/, for i in {idx} (change 1 of the list above is b{start}, change 2 is b{start+1}, change 3 is b{start+2}): `b<i>.diff` (output of `git diff` for that change alone, relative to the unchanged tree, not including the generated files), and `b<i>.json` with fields: property, kind (refactor | unconstrained-behaviour | optimisation), summary (what is changed), why_property_still_holds, existing_tests (exact commands you ran and that no additional test fails). After producing each diff, restore the tree (`git checkout -- .`) and verify the diff applies cleanly with `git apply --check`. At the end the worktree must contain no source modification apart from the BEN/ directory. Reply with a short summary of the three changes.
 
 Never run `git stash` (the stash is shared with the main repository).''')
